@@ -143,7 +143,7 @@ pub fn gen_profile(name: &str, rng: &mut Rng) -> (GenCfg, bool, Option<VolCfg>) 
                 clusters: if fat == 12 { rng.range(4, 30) as u32 } else { 4085 },
                 extra: 0,
                 garbage: rng.chance(1, 2),
-                slack: 1,
+                slack: 1, used_device: rng.chance(1, 2)
             });
         }
         "dirfill" => {
@@ -167,7 +167,7 @@ pub fn gen_profile(name: &str, rng: &mut Rng) -> (GenCfg, bool, Option<VolCfg>) 
                 clusters: if fat32 { 65525 } else { rng.range(5, 24) as u32 },
                 extra: if rng.chance(1, 2) { 4096 } else { 0 },
                 garbage: rng.chance(1, 2),
-                slack: 1 + rng.below(3) as u8,
+                slack: 1 + rng.below(3) as u8, used_device: !fat32 && rng.chance(1, 2)
             });
         }
         "tree" => {
